@@ -73,8 +73,8 @@ class Sim(object):
         self.sched_keys = set()
         self.point_lines = set()
         self.alias_names = {}
+        self.copy_pending = None
         self.stack = []           # engine N: contexts of the calls currently pre-empted, outermost first
-        self.recipes = {}         # id(obj) -> [(entry name, cloned call)] for objects without a repr
         self.op_recipe = {}       # op id -> recipe of its receiver at call time
         self.func_log = None      # calibration only: pymeeus functions entered by the current op
         self.funcs_by_name = {}
@@ -238,8 +238,9 @@ class Sim(object):
                 return None
         if ctx.recv_inf is not None and any(a is recv for a in args + list(kwargs.values())):
             return None
-        if recv is not None and id(recv) in self.recipes and not eff.startswith('mutator'):
-            self.op_recipe[op['id']] = list(self.recipes[id(recv)])
+        rinf = self.pool.infoof(recv) if recv is not None else None
+        if rinf is not None and rinf.recipe and not eff.startswith('mutator'):
+            self.op_recipe[op['id']] = list(rinf.recipe)
         ctx.pre = [(o, snap(o)) for o in ctx.reach]
         try:
             ctx.clones = CLONE((recv, args, kwargs))
@@ -412,7 +413,7 @@ class Sim(object):
             ctx.recv_inf.snap = snap(ctx.recv)
             rec['recv_post'] = ctx.recv_inf.snap
             self.count('mutator_applied')
-            if id(ctx.recv) in self.pool.copyrel:
+            if self.pool.is_copyrel(ctx.recv):
                 self.count('probe.mutator_on_copy_or_its_source')
             if ctx.recv_inf.born != op['id'] and pool.alias_count(ctx.recv) > 1:
                 self.count('probe.mutator_on_aliased')
@@ -423,8 +424,7 @@ class Sim(object):
                     ctx.recv if ctx.recv is not None else val))
                 if is_copy:
                     self.count('probe.copy_made')
-                    self.pool.copyrel.add(id(ctx.args[0]))
-                    self.pool.copyrel.add(id(ctx.recv if ctx.recv is not None else val))
+                    self.copy_pending = (ctx.args[0], ctx.recv if ctx.recv is not None else val)
                 else:
                     for o in ctx.reach:
                         if o is ctx.recv:
@@ -433,6 +433,12 @@ class Sim(object):
                         if inf is not None:
                             inf.frozen = True
             self.register_result(ctx, val)
+            if self.copy_pending is not None:
+                for o in self.copy_pending:
+                    ci = pool.infoof(o)
+                    if ci is not None:
+                        ci.copyrel = True
+                self.copy_pending = None
         elif kind == 'exc':
             rec['res'] = snap(val)
             cls = type(val).__name__
@@ -443,7 +449,7 @@ class Sim(object):
             self.count('cancelled')
             self.module_check(op, 'after-cancel')
         if ctx.recv_inf is not None and kind != 'ok':
-            self.recipes.pop(id(ctx.recv), None)
+            ctx.recv_inf.recipe = None
         if ctx.recv_inf is not None and kind in ('cancel', 'budget'):
             # a documented mutator was interrupted: its receiver may be half-set, which C20 does
             # not forbid, and no caller would go on using it -> the object leaves the pool
@@ -525,9 +531,9 @@ class Sim(object):
             # cloned at the time, then every documented mutator applied since
             if inf is not None:
                 if op['name'] == 'Minor.__init__':
-                    self.recipes[id(target)] = [(op['name'], ctx.clones)]
-                elif id(target) in self.recipes:
-                    self.recipes[id(target)].append((op['name'], ctx.clones))
+                    inf.recipe = [(op['name'], ctx.clones)]
+                elif inf.recipe:
+                    inf.recipe.append((op['name'], ctx.clones))
 
     # ------------------------------------------------------------ engines H / N
     def run_sequential(self):
